@@ -23,7 +23,7 @@ FUNCTIONS = [
     "unified_planning.engines.sequential_simulator:UPSequentialSimulator.apply_unsafe",
     "unified_planning.engines.sequential_simulator:UPSequentialSimulator.get_unsatisfied_goals",
 ]
-BOUNDS = ("skeleton family G (vf/gen.py) with <= 2 symbolic numeric leaves per shard; plans of length 0..2 (quick) / 0..3 (thorough) over all ground "
+BOUNDS = ("skeleton family G (vf/gen.py) with <= 2 symbolic numeric leaves per shard; plans of length 0..2 (quick: length 2 with one symbolic leaf) / 0..3 (thorough) over all ground "
           "instances; one of 7 metric configurations (none, constant action cost, fluent-dependent action cost, plan length, minimize / maximize "
           "final value, oversubscription incl. a soft goal that reads an undefined fluent) with symbolic cost/gain constants")
 OUTSIDE = "longer plans, several metrics (rejected by the validator), real-valued costs with symbolic denominators, temporal metrics"
@@ -64,7 +64,7 @@ def _add_metric(ctx, g, kind):
     return m
 
 
-def h_validate(ctx, sk, metric, max_len):
+def h_validate(ctx, sk, metric, max_len, lens=None):
     import z3
     from unified_planning.engines.plan_validator import SequentialPlanValidator
     from unified_planning.engines.results import ValidationResultStatus
@@ -76,7 +76,7 @@ def h_validate(ctx, sk, metric, max_len):
     prob, em, env = g.problem, g.em, g.env
     m = _add_metric(ctx, g, metric)
     instances = [(a, o) for a in g.actions for o in g.objs]
-    n = ctx.choice("len", max_len + 1)
+    n = ctx.choice("len", max_len + 1) if lens is None else lens[ctx.choice("len", len(lens))]
     steps = [instances[ctx.choice(f"s{i}", len(instances))] for i in range(n)]
     plan = SequentialPlan([ActionInstance(a, (em.ObjectExp(o),)) for a, o in steps], env)
     v = SequentialPlanValidator(environment=env)
@@ -169,8 +169,13 @@ def shards(tier, seed):
         sk = SKS[i]
         if mk in ("cost-fluent",) and sk.get("n_bounds", "none") == "none":
             sk = dict(sk, n_bounds="both")
-        out.append(dict(name=f"sk{i}-{mk}-len{max_len}", fn="h_validate", kwargs=dict(sk=sk, metric=mk, max_len=max_len),
-                        budget=110 if tier == "quick" else 1500, per_path=30))
+        if tier == "quick":
+            # plans of length 0 and 1 with the skeleton's two symbolic leaves; plans of length 2 with the first leaf only
+            out.append(dict(name=f"sk{i}-{mk}-len01", fn="h_validate", kwargs=dict(sk=sk, metric=mk, max_len=1, lens=[0, 1]), budget=110, per_path=30))
+            out.append(dict(name=f"sk{i}-{mk}-len2", fn="h_validate", kwargs=dict(sk=dict(sk, sym=sk["sym"][:1]), metric=mk, max_len=2, lens=[2]),
+                            budget=110, per_path=30))
+        else:
+            out.append(dict(name=f"sk{i}-{mk}-len{max_len}", fn="h_validate", kwargs=dict(sk=sk, metric=mk, max_len=max_len), budget=1500, per_path=30))
     return out
 
 
